@@ -58,19 +58,39 @@ def gen_history(rnd, hid, mods, flags, nconn, depth, profile):
     steps = []
     kinds = [k for k, _ in KINDS]
     weights = [w for _, w in KINDS]
+    if profile.get("kinds"):
+        weights = [(w * 6 if k in profile["kinds"] else (1 if k in ("Join", "EntityAdd") else 0)) for k, w in KINDS]
     n = 0
     # warm-up: most connections join quickly so that histories are not dominated by refusals
     for c in range(1, nconn + 1):
         if rnd.random() < 0.8:
             n += 1
             steps.append({"step": "Req", "conn": c, "req": {"k": "Join", "rid": n, "ts": n, "sid": rnd.choice([0, 1, 1, 2])}})
+    # focused profiles start from a populated session so that the interesting paths are reachable
+    ks = set(profile.get("kinds") or [])
+    if ks:
+        def req(c, r):
+            nonlocal n
+            n += 1
+            r.update(rid=n, ts=n)
+            steps.append({"step": "Req", "conn": c, "req": r})
+        for c in range(1, nconn + 1):
+            req(c, {"k": "Join", "sid": 0 if c == 1 else 1})
+        for c in range(1, min(nconn, 2) + 1):
+            req(c, {"k": "EntityAdd", "persist": rnd.random() < 0.4, "flag": 0, "px": 1})
+        if "CompAdd" in ks:
+            for nm in ("a", "b"):
+                req(rnd.randint(1, nconn), {"k": "TypeAdd", "name": nm})
+            for c in range(1, nconn + 1):
+                if rnd.random() < 0.6:
+                    req(c, {"k": "Sub", "tid": rnd.choice([1, 2])})
     while len(steps) < depth:
         n += 1
         c = rnd.randint(1, nconn)
         x = rnd.random()
-        if x < 0.10:
+        if x < 0.12:
             steps.append({"step": "Tick", "sid": rnd.choice([1, 1, 2, 3])})
-        elif x < 0.22:
+        elif x < 0.24:
             steps.append({"step": "Proc", "conn": c})
         elif x < 0.26:
             steps.append({"step": "Disc", "conn": c, "cause": "close"})
@@ -101,6 +121,7 @@ def main():
     ap.add_argument("--mods", default="vikja,odal,dagaz")
     ap.add_argument("--flags", default="")
     ap.add_argument("--nonilpose", action="store_true")
+    ap.add_argument("--kinds", default="")
     ap.add_argument("--out", required=True)
     a = ap.parse_args()
     rnd = random.Random(a.seed)
@@ -109,7 +130,7 @@ def main():
     with open(a.out, "w") as f:
         for i in range(a.n):
             nconn = rnd.randint(2, a.conns)
-            h = gen_history(rnd, f"r{a.seed}-{i}", mods, flags, nconn, a.depth, {"nonilpose": a.nonilpose})
+            h = gen_history(rnd, f"r{a.seed}-{i}", mods, flags, nconn, a.depth, {"nonilpose": a.nonilpose, "kinds": [k for k in a.kinds.split(",") if k]})
             f.write(json.dumps(h) + "\n")
 
 
